@@ -23,7 +23,8 @@ def gen_strings(rng, n):
     return out[:n]
 
 
-CHANNELS = ["direct", "loop", "vars", "set_vars", "register"]
+# *_map / *_list: the value sits inside a mapping or a list nested in the loop item / vars / set_vars value
+CHANNELS = ["direct", "loop", "vars", "set_vars", "register", "loop_map", "loop_list", "vars_map", "set_vars_map"]
 
 
 def script(channel, root):
@@ -41,6 +42,18 @@ def script(channel, root):
     elif channel == "set_vars":
         pre = "- set_vars:\n    x: \"%s\"\n" % src
         use = "{{ x }}"
+    elif channel == "loop_map":
+        use = "{{ item.text }}"
+        extra = "  loop:\n    - {text: \"%s\", n: 1}\n" % src
+    elif channel == "loop_list":
+        use = "{{ item[0] }}"
+        extra = "  loop:\n    - [\"%s\", second]\n" % src
+    elif channel == "vars_map":
+        use = "{{ m.inner.text }}"
+        extra = "  vars:\n    m:\n      inner: {text: \"%s\"}\n" % src
+    elif channel == "set_vars_map":
+        pre = "- set_vars:\n    m:\n      inner: {text: \"%s\"}\n" % src
+        use = "{{ m.inner.text }}"
     elif channel == "register":
         pre = "- command:\n    argv: [sh, -c, 'printf %s \"$VP\"']\n  register: r\n"
         use = "{{ r.output }}"
@@ -110,8 +123,8 @@ def c12(run, replay=None):
             continue
         desc = dict(value=v, channel=ch, observed=dict(rc=o["rc"], file=None if o["file"] is None else o["file"].decode("utf-8", "replace"),
                                                        argv=None if o["argv"] is None else [a.decode("utf-8", "replace") for a in o["argv"]], stderr=o["stderr"]))
-        if ch in ("vars", "set_vars") and cls[v]["retyped"]:
-            if ch == "set_vars" and cls[v]["has_open"]:
+        if ch in ("vars", "set_vars", "vars_map", "set_vars_map") and cls[v]["retyped"]:
+            if ch.startswith("set_vars") and cls[v]["has_open"]:
                 run.known("K6-set-vars-renders-twice", "")
             else:
                 run.known("K7-typed-context-reparses-yaml", "")
